@@ -87,6 +87,9 @@ package storethehash
 //@   requires bs.store.err != types.ErrKeyExists
 //@   modifies bs.store.index.$Ein, bs.store.index.$Eblk, bs.store.index.Primary.$Rin, bs.store.index.Primary.$Rkey, bs.store.index.Primary.$Rval, bs.store.index.Primary.$Rused, bs.store.freelist.$F, bs.store.flushNotice, chan(bs.store.flushNotice), ctx.$done
 //@   ensures @cancelled old(ctx.$done) ==> err != nil && untouched(bs.store)
+//@   ghost var gexists bool = false
+//@   ghost at after call store.Store.Put#0: gexists = ($r0 == types.ErrKeyExists)
+//@   ensures @dup-silent gexists ==> err == nil
 //@   ensures @stored err == nil ==> has(bs.store, BK())
 //@   ensures @new-value err == nil && !old(has(bs.store, BK())) ==> val(bs.store, BK()) == blockdata(blk.$pay)
 //@   ensures @others forall k Bytes :: k != BK() ==> has(bs.store, k) == old(has(bs.store, k)) && (has(bs.store, k) ==> val(bs.store, k) == old(val(bs.store, k)))
